@@ -524,22 +524,27 @@ func R9AckOrder(c *Ctx) {
 		return
 	}
 	var add ssa.CallInstruction
-	EachCall(hd, func(call ssa.CallInstruction) {
-		if strings.HasSuffix(CalleeName(call), ".AgentAdd") {
-			add = call
-		}
-	})
+	var regFn *ssa.Function
+	// the registration branch may live in an unexported helper of handleDemonAgent
+	for _, hf := range HelperClosure(hd, 2) {
+		hf := hf
+		EachCall(hf, func(call ssa.CallInstruction) {
+			if strings.HasSuffix(CalleeName(call), ".AgentAdd") {
+				add, regFn = call, hf
+			}
+		})
+	}
 	if add == nil {
 		c.R.Bad(rule, FuncShort(hd), "Teamserver.AgentAdd(Agent)", c.pos(hd.Pos()), "a registration is no longer added/persisted")
 	} else {
 		n := 0
-		EachCall(hd, func(call ssa.CallInstruction) {
+		EachCall(regFn, func(call ssa.CallInstruction) {
 			if CalleeName(call) != "(*bytes.Buffer).Write" {
 				return
 			}
 			// only writes in the registration branch: those the parse of a register request dominates
 			reg := false
-			EachCall(hd, func(c2 ssa.CallInstruction) {
+			EachCall(regFn, func(c2 ssa.CallInstruction) {
 				if CalleeName(c2) == "Havoc/pkg/agent.ParseDemonRegisterRequest" && InstrDominates(c2, call) {
 					reg = true
 				}
